@@ -303,6 +303,8 @@ def check_kernel_1d(ctx, rule, fi, prefix="kernel1d"):
                         facts["nan"].append(("wrong-branch", tgt, None))
             env.step(step)
 
+        if end_kind(p) == "return" and not (gap_branch or cons_branch) and any(st_[0] == "for" and st_[1] is loop for st_ in p):
+            facts["nan"].append(("skipped", "", None))
     # the per-bin results are final: outside the sweep the result arrays are only allocated (zeros), never replaced
     reassigned = []
     for n in ast.walk(fi.node):
@@ -365,6 +367,8 @@ def check_kernel_1d(ctx, rule, fi, prefix="kernel1d"):
     if stale:
         problems["nan"].append(f"the gap test is `{stale[0]}`, not is_consecutive of the very bins array that was swept "
                                "(a cached verdict of the binning object can be stale)")
+    if any(f[0] == "skipped" for f in facts["nan"]):
+        problems["nan"].append("a returning path never asks whether the bins are consecutive: with gapped bins it reports under/overflow as known")
     if not nan_cond or nan_store != {"underflow", "overflow"} or any(f[0] == "wrong-branch" for f in facts["nan"]):
         problems["nan"].append("under/overflow are not both reset to NaN under the not-is_consecutive test")
     else:
